@@ -20,6 +20,7 @@ FLOATS = [0.0, -0.0, 1.0, -1.5, 0.5, 1234.5678, 1e-7, 1e16, 1e22, 123456789.0, f
           99999.5, 1e5, 123456.0]
 STRS = ['', 'a', 'abc', 'héllo', '日本語']
 BOOLS = [True, False]
+STRS2 = ['é', 'éé', 'héé', '日本語', '😀😀', 'aé', 'abc']
 MAL_SIGMA = ['<', '>', '=', '^', '+', '-', ' ', '#', '0', '1', '9', ',', '_', '.', 'd', 'f', 's', 'x', 'é', '!', 'r', 'z']
 MAL_VALUES = [('i', 1234567), ('f', -1234.5678), ('s', 'héllo'), ('b', True)]
 
@@ -90,7 +91,11 @@ def spec_product(tier):
 def run_job(job):
     r = C.Result()
     kind_job = job[0]
-    if kind_job == 'prod':
+    if kind_job == 'sprod':
+        # text values: width, precision and padding are counted in characters, never in bytes
+        reqs = [('s', v, f + w + p + t, {'typ': t}) for v in STRS2 for f in ['', '<', '>', '^', 'x<', 'é^', '0'] for w in [''] + [str(i) for i in range(0, 9)]
+                for p in [''] + ['.%d' % i for i in range(0, 10)] for t in ['', 's']]
+    elif kind_job == 'prod':
         specs = job[1]
         vals = value_reqs()
         reqs = [(k, v, spec, fields) for spec, fields in specs for k, v in vals]
@@ -118,6 +123,7 @@ def run(tier, seed):
     t0 = time.time()
     jobs = [('prod', ch) for ch in X.chunks(spec_product(tier), 1500)]
     nspecs = sum(len(j[1]) for j in jobs)
+    jobs.append(('sprod',))
     n = 3 if tier == 'quick' else 4
     jobs += [('mal', MAL_SIGMA, n, s) for s in X.prefix_shards(MAL_SIGMA, n, 1 if tier == 'quick' else 2)]
     total = C.Result()
@@ -125,7 +131,7 @@ def run(tier, seed):
         total.merge(r)
     total.extra['distinct_specs_in_product'] = nspecs
     rule = ('spec product [[fill]align][sign][z][#][0][width][grouping][.precision][type] over the per-field domains %s (%d distinct spec texts) x %d values '
-            '(ints %r, floats %r, strings %r, booleans), plus every string of length<=%d over %r x 4 values; real FormatSpec::parse+format_* vs '
+            '(ints %r, floats %r, strings %r, booleans), the text product 7 multi-byte strings x 7 fill/align forms x widths 0..8 x precisions 0..9 x {'', s}, plus every string of length<=%d over %r x 4 values; real FormatSpec::parse+format_* vs '
             'format(value, spec); non-trivial = both sides produced the same text (a formatting actually happened); distinct = distinct (spec, value)'
             % (json.dumps(DOM[tier], ensure_ascii=False), nspecs, len(value_reqs()), INTS, FLOATS, STRS, n, ''.join(MAL_SIGMA)))
     return C.finish(PROP, tier, seed, t0, total, rule,
